@@ -327,7 +327,8 @@ class _FakeSocket:
         # reads what was sent to its own address
         i = next((k for k, e in enumerate(inbox) if len(e) < 3 or e[2] is None or str(e[2]) == str(self.addr[0])), 0)
         e = inbox.pop(i)
-        return e[0], (e[1], 500)
+        # the source is an address (port 500) or an (address, port) pair
+        return e[0], ((e[1], 500) if not isinstance(e[1], tuple) else (e[1][0], e[1][1]))
 
     def recvfrom_into(self, buffer, nbytes=0, flags=0):
         data, addr = self.recvfrom(len(buffer))
